@@ -132,6 +132,8 @@ package z
 //@   panics_if [C11] #maxsize GcGrowPanics(b, n)
 //@   modifies b.buf, b.curSz, b.bufType, b.mmapFile, b.mmapFile.Data, b.offset
 //@   ensures [C11] #wf GcWfBuffer(b) && b.offset == old(b.offset)+uint64(n) && b.padding == old(b.padding) && result == int(old(b.offset))
+//@   assumes [hypothesis] #words-survive forall i int :: 0 <= i && i < int(old(b.offset))/8 ==> gcU64(b.buf)[i] == old(gcU64(b.buf)[i])
+//@   ensures [C11] #room forall k int :: 0 <= k && k < 100 && old(GcBufRoom(b, k+1)) ==> GcBufRoom(b, k)
 //@   ensures [C11] #prefix forall i int :: 0 <= i && uint64(i) < old(b.offset) ==> b.buf[i] == old(b.buf[i])
 //@   ensures [C11] #storage (gcSameRef(b.buf, old(b.buf)) || gcFresh(b.buf)) && (b.mmapFile == old(b.mmapFile) || gcFresh(b.mmapFile)) && b.curSz <= old(b.curSz)+(1<<41) && b.maxSz == old(b.maxSz)
 
@@ -194,6 +196,22 @@ package z
 //@   ensures [C11] #slice offset < int(b.offset) ==> gcSliceAt(result0, b.buf, offset+8) && len(result0) == int(GcBE64(b, offset))
 //@   ensures [C11] #next offset < int(b.offset) ==> result1 == ite(offset+8+int(GcBE64(b, offset)) >= int(b.offset), -1, offset+8+int(GcBE64(b, offset)))
 
+// The slices written into a buffer form a chain: the ghost sequence gcOffs lists the offset of
+// every length prefix, starts at the padding, ends at b.offset, and each element is the
+// previous one plus 8 plus the big-endian length stored there.
+//@ decl var gcOffs []int // ghost: offsets of the length prefixes of the slices in the buffer under consideration
+//@ spec GcChain(b *Buffer) bool = gcAllocated(gcOffs) && len(gcOffs) >= 1 && gcOffs[0] == int(b.padding) && gcOffs[len(gcOffs)-1] == int(b.offset) && forall i int :: 0 <= i && i < len(gcOffs)-1 ==> gcOffs[i] >= int(b.padding) && gcOffs[i]+8 <= int(b.offset) && GcBE64(b, gcOffs[i]) <= uint64(int(b.offset)-gcOffs[i]-8) && gcOffs[i+1] == gcOffs[i]+8+int(GcBE64(b, gcOffs[i]))
+
+// SliceOffsets returns exactly the offsets of the chain, in order (for an empty buffer: the start offset alone).
+// (work in progress: the cursor invariant is not preserved within the time limit; tagged wip, in no cone)
+//@ func (b *Buffer) SliceOffsets() []int
+//@   requires GcWfBuffer(b) && GcBufRoom(b, 0) && GcChain(b)
+//@   loop 1 invariant #own cap(offsets) == 0 || gcFresh(offsets)
+//@   loop 1 invariant #prefix 0 <= len(offsets) && forall i int :: 0 <= i && i < len(offsets) ==> offsets[i] == gcOffs[i]
+//@   loop 1 invariant #cursor len(offsets) < len(gcOffs) && (len(offsets) <= len(gcOffs)-1 || len(offsets) == 1) && next == ite(len(offsets) < len(gcOffs)-1 || len(offsets) == 0, gcOffs[len(offsets)], -1)
+//@   ensures [wip] #count len(result) == ite(len(gcOffs) == 1, 1, len(gcOffs)-1)
+//@   ensures [wip] #offsets forall i int :: 0 <= i && i < len(result) ==> result[i] == gcOffs[i]
+
 // histogram.go: life-expectancy statistics only; no listed property depends on them.
 //@ func HistogramBounds(minExponent, maxExponent uint32) []float64
 //@   trusted statistics helper outside every property
@@ -244,7 +262,9 @@ package z
 //@ func zeroOut(data []uint64)
 //@   modifies data[*]
 //@   loop 1 invariant 0 <= i && i <= len(data) && forall j int :: 0 <= j && j < i ==> data[j] == 0
+//@   loop 1 invariant #tail forall j int :: len(data) <= j && j < cap(data) ==> data[j] == old(data[j])
 //@   ensures [C10] forall j int :: 0 <= j && j < len(data) ==> data[j] == 0
+//@   ensures [C10] #tail forall j int :: len(data) <= j && j < cap(data) ==> data[j] == old(data[j])
 
 // moveRight shifts slots [lo, N) one slot to the right (memmove semantics).
 //@ func (n node) moveRight(lo int)
@@ -392,3 +412,128 @@ package z
 // the same counter without an intervening store differ by at least the later request
 // (sync/atomic: AddUint64 is a fetch-and-add), so their regions cannot overlap.
 //@ lemma [C12] GcTicketsDisjoint(p1, p2 uint64, sz1, sz2 int): 0 < sz1 && sz1 <= 1<<30 && 0 < sz2 && sz2 <= 1<<30 && p2 >= p1 && p2-p1 >= uint64(sz2) && GcBI(p1) == GcBI(p2) && GcPI(p1) >= sz1 && GcPI(p2) >= sz2 ==> GcPI(p2)-sz2 >= GcPI(p1)
+
+// ---------------------------------------------------------------- btree.go: the page layer of z.Tree (C10, C16)
+//
+// The tree addresses its pages through []uint64 views of t.data built with reflect.SliceHeader.
+// gcU64(b) names that view: the storage of b read as little 8-byte words.  The one trusted
+// step is BytesToUint64Slice itself (unsafe reinterpretation); everything above it is verified.
+//@ func BytesToUint64Slice(b []byte) []uint64
+//@   trusted reflect.SliceHeader reinterpretation: the result aliases b's storage as 8-byte words (b starts on a word boundary)
+//@   ensures (len(b) == 0 ==> len(result) == 0) && (len(b) > 0 ==> gcSliceAt(result, gcU64(b), 0) && len(result) == len(b)/8 && cap(result) == len(b)/8)
+
+// The page layer is verified for the 4 KiB page (os.Getpagesize() on linux/amd64): with a symbolic page
+// size every page address is a product of two unknowns, which the bit-vector solvers do not decide.
+//@ spec GcPageWords() int = 512
+//@ spec GcPagesOK() bool = maxKeys == 255 && pageSize == 4096
+// t.data is the used part of the buffer; nextPage is the allocation frontier (pages 1..nextPage-1 exist).
+//@ spec GcTreeShape(t *Tree) bool = t != nil && GcPagesOK() && GcWfBuffer(t.buffer) && gcWfSlice(t.buffer.buf) && t.buffer.maxSz == 0 && gcSliceAt(t.data, t.buffer.buf, int(t.buffer.padding)) && len(t.data) == int(t.buffer.offset-t.buffer.padding) && t.buffer.padding == 8 && 1 <= t.nextPage && t.nextPage < 1<<40 && int(t.nextPage)*pageSize <= len(t.data)
+//@ spec GcDataInBuf(t *Tree) bool = t.buffer != nil && gcWfSlice(t.buffer.buf) && gcSliceAt(t.data, t.buffer.buf, 8)
+//@ spec GcPage(t *Tree, pid uint64) node = gcU64(t.data)[int(pid)*GcPageWords() : (int(pid)+1)*GcPageWords()]
+
+//@ func getNode(data []byte) node
+//@   ensures [C10] (len(data) == 0 ==> len(result) == 0) && (len(data) > 0 ==> gcSliceAt(result, gcU64(data), 0) && len(result) == len(data)/8 && cap(result) == len(data)/8)
+
+//@ func (t *Tree) node(pid uint64) node
+//@   requires t != nil && GcPagesOK() && pid < 1<<40 && (pid == 0 || (int(pid)+1)*pageSize <= len(t.data))
+//@   ensures [C10,C16] #nil pid == 0 ==> len(result) == 0
+//@   ensures [C10,C16] #inbuf pid != 0 && GcDataInBuf(t) ==> gcSliceAt(result, gcU64(t.buffer.buf), 1+int(pid)*512)
+//@   ensures [C10,C16] #page pid != 0 ==> gcSliceAt(result, gcU64(t.data), int(pid)*GcPageWords()) && len(result) == GcPageWords() && cap(result) == GcPageWords()
+
+// Word w of page p, read through the word view of the buffer (t.data starts 8 bytes, one word, into it).
+//@ spec GcWord(t *Tree, p uint64, w int) uint64 = gcU64(t.buffer.buf)[1+int(p)*512+w]
+// Allocation frontier (what reinit reconstructs, C16): every page below nextPage carries its own
+// page id, every page at or above it that lies inside the data carries a zero id.
+//@ spec GcFrontier(t *Tree) bool = forall p uint64 :: 1 <= p && p < 1<<40 && (int(p)+1)*4096 <= len(t.data) ==> GcWord(t, p, 510) == ite(p < t.nextPage, p, 0)
+
+//@ func (t *Tree) newNode(bit uint64) node
+//@   paths
+//@   requires GcTreeShape(t) && GcFrontier(t) && bit&0xFFFFFFFF == 0 && GcBufRoom(t.buffer, 1) && t.freePage < t.nextPage
+//@   modifies t.nextPage, t.freePage, t.stats.NumPagesFree, t.data, gcU64(t.buffer.buf)[*], t.buffer.buf, t.buffer.curSz, t.buffer.bufType, t.buffer.mmapFile, t.buffer.mmapFile.Data, t.buffer.offset
+//@   at call node#1 assert #h-survive forall p uint64 :: 1 <= p && p < 1<<40 && (int(p)+1)*4096 <= len(t.data) && p != pageId ==> GcWord(t, p, 510) == ite(p < t.nextPage, p, 0)
+//@   at call node#1 assert #h-others forall p uint64 :: 1 <= p && p < old(t.nextPage) && p != pageId ==> forall w int :: 0 <= w && w < 512 ==> GcWord(t, p, w) == old(GcWord(t, p, w))
+//@   at call zeroOut#1 assert #h-room 8+(int(pageId)+1)*4096 <= cap(t.buffer.buf) && pageId < 1<<40
+//@   at call zeroOut#1 assert #h-at gcSliceAt(n, gcU64(t.buffer.buf), 1+int(pageId)*512)
+//@   ensures [C10,C16] #shape GcTreeShape(t)
+//@   ensures [C10,C16] #frontier GcFrontier(t)
+//@   ensures [C10,C16] #room forall k int :: 0 <= k && k < 100 && old(GcBufRoom(t.buffer, k+1)) ==> GcBufRoom(t.buffer, k)
+//@   ensures [C10,C16] #fresh old(t.freePage) == 0 ==> t.nextPage == old(t.nextPage)+1 && t.freePage == 0 && gcSliceAt(result, gcU64(t.data), int(old(t.nextPage))*512)
+//@   ensures [C10,C16] #recycled old(t.freePage) > 0 ==> t.nextPage == old(t.nextPage) && t.freePage == old(GcWord(t, t.freePage, 0)) && gcSliceAt(result, gcU64(t.data), int(old(t.freePage))*512) && t.stats.NumPagesFree == old(t.stats.NumPagesFree)-1
+//@   ensures [C10,C16] #inbuf gcSliceAt(result, gcU64(t.buffer.buf), 1+int(old(GcNewPage(t)))*512)
+//@   ensures [C10,C16] #storage gcSameRef(t.buffer.buf, old(t.buffer.buf)) || gcFresh(t.buffer.buf)
+//@   ensures [C10,C16] #others forall p uint64 :: 1 <= p && p < old(t.nextPage) && p != old(GcNewPage(t)) ==> forall w int :: 0 <= w && w < 512 ==> GcWord(t, p, w) == old(GcWord(t, p, w))
+//@   ensures [C10,C16] #blank len(result) == 512 && cap(result) == 512 && (forall i int :: 0 <= i && i < 510 ==> result[i] == 0) && result[511]&0xFF00000000000000 == bit&0xFF00000000000000 && GcNumKeys(result) == 0
+
+//@ spec GcPageKeys(t *Tree, p uint64) int = int(GcWord(t, p, 511) & 0xFFFFFFFF)
+//@ spec GcNewPage(t *Tree) uint64 = ite(t.freePage > 0, t.freePage, t.nextPage)
+
+// split moves the upper half of a full page into a newly allocated page and returns that page.
+//@ func (t *Tree) split(pid uint64) node
+//@   paths
+//@   requires GcTreeShape(t) && GcFrontier(t) && GcBufRoom(t.buffer, 1) && t.freePage < t.nextPage && 1 <= pid && pid < t.nextPage && t.freePage != pid
+//@   panics_if [wip] #notfull GcPageKeys(t, pid) != 255
+//@   modifies t.nextPage, t.freePage, t.stats.NumPagesFree, t.data, gcU64(t.buffer.buf)[*], t.buffer.buf, t.buffer.curSz, t.buffer.bufType, t.buffer.mmapFile, t.buffer.mmapFile.Data, t.buffer.offset
+//@   at call node#2 assert #h-room 8+(int(old(GcNewPage(t)))+1)*4096 <= cap(t.buffer.buf) && old(GcNewPage(t)) != pid && old(GcNewPage(t)) < 1<<40 && 8+(int(pid)+1)*4096 <= cap(t.buffer.buf)
+//@   at call setNumKeys#1 assert #h-nn gcSliceAt(nn, gcU64(t.buffer.buf), 1+int(old(GcNewPage(t)))*512) && len(nn) == 512 && cap(nn) == 512
+//@   at call setNumKeys#1 assert #h-n gcSliceAt(n, gcU64(t.buffer.buf), 1+int(pid)*512) && len(n) == 512 && cap(n) == 512
+//@   at call setNumKeys#1 assert #s1-right (forall w int :: 0 <= w && w < 256 ==> GcWord(t, old(GcNewPage(t)), w) == old(GcWord(t, pid, 254+w))) && (forall w int :: 256 <= w && w < 510 ==> GcWord(t, old(GcNewPage(t)), w) == 0) && GcWord(t, old(GcNewPage(t)), 510) == old(GcNewPage(t)) && GcWord(t, old(GcNewPage(t)), 511)&0xFF00000000000000 == old(GcWord(t, pid, 511))&0xFF00000000000000
+//@   at call setNumKeys#1 assert #s1-left forall w int :: 0 <= w && w < 512 ==> GcWord(t, pid, w) == old(GcWord(t, pid, w))
+//@   at call setNumKeys#1 assert #s1-others forall p uint64 :: 1 <= p && p < old(t.nextPage) && p != pid && p != old(GcNewPage(t)) ==> forall w int :: 0 <= w && w < 512 ==> GcWord(t, p, w) == old(GcWord(t, p, w))
+//@   at call zeroOut#1 assert #s2-right (forall w int :: 0 <= w && w < 256 ==> GcWord(t, old(GcNewPage(t)), w) == old(GcWord(t, pid, 254+w))) && (forall w int :: 256 <= w && w < 510 ==> GcWord(t, old(GcNewPage(t)), w) == 0) && GcWord(t, old(GcNewPage(t)), 510) == old(GcNewPage(t)) && GcWord(t, old(GcNewPage(t)), 511)&0xFF00000000000000 == old(GcWord(t, pid, 511))&0xFF00000000000000 && GcPageKeys(t, old(GcNewPage(t))) == 128
+//@   at call zeroOut#1 assert #s2-left forall w int :: 0 <= w && w < 512 ==> GcWord(t, pid, w) == old(GcWord(t, pid, w))
+//@   at call zeroOut#1 assert #s2-others forall p uint64 :: 1 <= p && p < old(t.nextPage) && p != pid && p != old(GcNewPage(t)) ==> forall w int :: 0 <= w && w < 512 ==> GcWord(t, p, w) == old(GcWord(t, p, w))
+//@   at call setNumKeys#2 assert #s3-right (forall w int :: 0 <= w && w < 256 ==> GcWord(t, old(GcNewPage(t)), w) == old(GcWord(t, pid, 254+w))) && (forall w int :: 256 <= w && w < 510 ==> GcWord(t, old(GcNewPage(t)), w) == 0) && GcWord(t, old(GcNewPage(t)), 510) == old(GcNewPage(t)) && GcWord(t, old(GcNewPage(t)), 511)&0xFF00000000000000 == old(GcWord(t, pid, 511))&0xFF00000000000000 && GcPageKeys(t, old(GcNewPage(t))) == 128
+//@   at call setNumKeys#2 assert #s3-left (forall w int :: 0 <= w && w < 254 ==> GcWord(t, pid, w) == old(GcWord(t, pid, w))) && (forall w int :: 254 <= w && w < 510 ==> GcWord(t, pid, w) == 0) && GcWord(t, pid, 510) == old(GcWord(t, pid, 510)) && GcWord(t, pid, 511) == old(GcWord(t, pid, 511))
+//@   at call setNumKeys#2 assert #s3-others forall p uint64 :: 1 <= p && p < old(t.nextPage) && p != pid && p != old(GcNewPage(t)) ==> forall w int :: 0 <= w && w < 512 ==> GcWord(t, p, w) == old(GcWord(t, p, w))
+//@   ensures [wip] #shape GcTreeShape(t)
+//@   ensures [wip] #frontier GcFrontier(t)
+//@   ensures [wip] #room forall k int :: 0 <= k && k < 100 && old(GcBufRoom(t.buffer, k+1)) ==> GcBufRoom(t.buffer, k)
+//@   ensures [wip] #storage gcSameRef(t.buffer.buf, old(t.buffer.buf)) || gcFresh(t.buffer.buf)
+//@   ensures [wip] #alloc (old(t.freePage) == 0 ==> t.nextPage == old(t.nextPage)+1 && t.freePage == 0) && (old(t.freePage) > 0 ==> t.nextPage == old(t.nextPage) && t.freePage == old(GcWord(t, t.freePage, 0)))
+//@   ensures [wip] #result gcSliceAt(result, gcU64(t.buffer.buf), 1+int(old(GcNewPage(t)))*512) && len(result) == 512 && cap(result) == 512
+//@   ensures [wip] #left GcPageKeys(t, pid) == 127 && (forall w int :: 0 <= w && w < 254 ==> GcWord(t, pid, w) == old(GcWord(t, pid, w))) && (forall w int :: 254 <= w && w < 510 ==> GcWord(t, pid, w) == 0) && GcWord(t, pid, 511)&0xFFFFFFFF00000000 == old(GcWord(t, pid, 511))&0xFFFFFFFF00000000
+//@   ensures [wip] #right GcPageKeys(t, old(GcNewPage(t))) == 128 && (forall w int :: 0 <= w && w < 256 ==> GcWord(t, old(GcNewPage(t)), w) == old(GcWord(t, pid, 254+w))) && (forall w int :: 256 <= w && w < 510 ==> GcWord(t, old(GcNewPage(t)), w) == 0) && GcWord(t, old(GcNewPage(t)), 511)&0xFF00000000000000 == old(GcWord(t, pid, 511))&0xFF00000000000000
+//@   ensures [wip] #others forall p uint64 :: 1 <= p && p < old(t.nextPage) && p != pid && p != old(GcNewPage(t)) ==> forall w int :: 0 <= w && w < 512 ==> GcWord(t, p, w) == old(GcWord(t, p, w))
+
+// ---------------------------------------------------------------- btree.go: reopening (C16)
+//
+// reinit rebuilds the allocator state of a reopened tree from the file contents alone:
+// the frontier (first page whose id word is zero) and the head of the free-page list
+// (the page that holds no node and that no other such page points to).
+//@ spec GcDataShape(t *Tree) bool = t != nil && GcPagesOK() && GcWfBuffer(t.buffer) && gcWfSlice(t.buffer.buf) && gcSliceAt(t.data, t.buffer.buf, int(t.buffer.padding)) && len(t.data) == int(t.buffer.offset-t.buffer.padding) && t.buffer.padding == 8 && len(t.data)%4096 == 0 && len(t.data) >= 8192 && len(t.data) < 1<<50
+//@ spec GcFrontierAt(t *Tree, n uint64) bool = 1 <= n && n < 1<<40 && int(n)*4096 <= len(t.data) && (forall p uint64 :: 1 <= p && p < 1<<40 && (int(p)+1)*4096 <= len(t.data) ==> GcWord(t, p, 510) == ite(p < n, p, 0)) && ((int(n)+1)*4096 <= len(t.data) ==> GcWord(t, n, 510) == 0)
+//@ decl var gcAnyBools [][]bool // ghost: in a frame, gcAnyBools[*][*] names every []bool array
+
+// What Iterate does to the caller's state goes through the closure it is given; its contract
+// gives no information about that (every []bool array and the leaf-key statistic are havoced).
+//@ func (t *Tree) Iterate(fn func(node))
+//@   trusted recursive traversal applying fn to every reachable node; nothing is assumed about its effect on what fn captures
+//@   requires t != nil
+//@   modifies gcAnyBools[*][*], t.stats.NumLeafKeys, gcCallbacks(fn)
+
+//@ func (t *Tree) reinit()
+//@   paths
+//@   requires GcDataShape(t)
+//@   modifies t.nextPage, t.freePage, t.stats.NumLeafKeys, t.stats.NumPagesFree, gcAnyBools[*][*]
+//@   loop 1 invariant #scan 1 <= t.nextPage && t.nextPage < 1<<40 && int(t.nextPage)*4096 <= len(t.data) && forall p uint64 :: 1 <= p && p < t.nextPage ==> GcWord(t, p, 510) != 0
+//@   loop 1 modifies t.nextPage
+//@   at call node#2 assume [hypothesis] #links-in-range GcWord(t, pageId, 0) < t.nextPage
+//@   at call append#1 assert #h-word nextPageId == GcWord(t, pageId, 0) && nextPageId != 0 && nextPageId < t.nextPage && pageId == uint64(i)+1
+//@   loop 2 invariant #collect 0 <= len(pointedPages) && (cap(pointedPages) == 0 || gcFresh(pointedPages)) && gcFresh(tailPages) && uint64(len(tailPages)) == t.nextPage-1
+//@   loop 2 invariant #bound forall k int :: 0 <= k && k < len(pointedPages) ==> pointedPages[k] != 0 && pointedPages[k] < t.nextPage
+//@   loop 2 invariant #inrange forall k int :: 0 <= k && k < len(pointedPages) ==> exists j int :: 0 <= j && j <= rangeindex && j < len(tailPages) && !tailPages[j] && pointedPages[k] == GcWord(t, uint64(j)+1, 0)
+//@   loop 2 invariant #all forall j int :: 0 <= j && j <= rangeindex && j < len(tailPages) && !tailPages[j] && GcWord(t, uint64(j)+1, 0) != 0 ==> exists k int :: 0 <= k && k < len(pointedPages) && pointedPages[k] == GcWord(t, uint64(j)+1, 0)
+//@   loop 2 modifies t.stats.NumPagesFree
+//@   loop 3 invariant #shape3 gcFresh(tailPages) && uint64(len(tailPages)) == t.nextPage-1
+//@   loop 3 invariant #kept forall i int :: 0 <= i && i < len(tailPages) && oldat("loop3", tailPages[i]) ==> tailPages[i]
+//@   loop 3 invariant #pointed forall k int :: 0 <= k && k <= rangeindex && k < len(pointedPages) ==> tailPages[int(pointedPages[k])-1]
+//@   loop 3 invariant #only forall i int :: 0 <= i && i < len(tailPages) && tailPages[i] && !oldat("loop3", tailPages[i]) ==> exists k int :: 0 <= k && k <= rangeindex && k < len(pointedPages) && pointedPages[k] == uint64(i)+1
+//@   loop 3 modifies tailPages[*]
+//@   loop 4 invariant #prefix t.freePage == old(t.freePage) && forall j int :: 0 <= j && j <= rangeindex && j < len(tailPages) ==> tailPages[j]
+//@   loop 4 modifies t.freePage
+//@   ensures [C16] #frontier-found 1 <= t.nextPage && (forall p uint64 :: 1 <= p && p < t.nextPage ==> GcWord(t, p, 510) != 0) && (int(t.nextPage)*4096 >= len(t.data) || GcWord(t, t.nextPage, 510) == 0)
+//@   ensures [C16] #roundtrip forall n uint64 :: GcFrontierAt(t, n) ==> t.nextPage == n
+//@   ensures [C16] #marked-nodes forall i int :: 0 <= i && i < len(tailPages) && oldat("loop2", tailPages[i]) ==> tailPages[i]
+//@   ensures [C16] #marked-pointed forall j int :: 0 <= j && j < len(tailPages) && !oldat("loop2", tailPages[j]) && GcWord(t, uint64(j)+1, 0) != 0 ==> tailPages[int(GcWord(t, uint64(j)+1, 0))-1]
+//@   ensures [C16] #marked-only forall i int :: 0 <= i && i < len(tailPages) && tailPages[i] && !oldat("loop2", tailPages[i]) ==> exists j int :: 0 <= j && j < len(tailPages) && !oldat("loop2", tailPages[j]) && GcWord(t, uint64(j)+1, 0) == uint64(i)+1
+//@   ensures [C16] #head t.freePage == old(t.freePage) || (1 <= t.freePage && t.freePage < t.nextPage && !tailPages[t.freePage-1] && forall j int :: 0 <= j && uint64(j) < t.freePage-1 ==> tailPages[j])
